@@ -160,14 +160,22 @@ def split_complex(kind, p: Poly, name):
     return [Goal(kind, p, name)]
 
 
-def saturate(eqs, targets, rounds=2, maxdeg=6, max_lemmas=60000, ineqs=()):
+def _mask(m):
+    r = 0
+    for v, _ in m:
+        r |= 1 << v
+    return r
+
+
+def saturate(eqs, targets, rounds=2, maxdeg=6, max_lemmas=40000, ineqs=()):
     """goal-directed saturation.
     eqs: list[Poly] (each == 0); targets: set of monomials.  Returns list of lemma polys (== 0)."""
-    # index assumptions by variable
     by_var = {}
+    hmons = []
     for hi, h in enumerate(eqs):
         for v in h.vars():
             by_var.setdefault(v, []).append(hi)
+        hmons.append([(m, _mask(m)) for m in h.t if m])
     seen = set()
     lemmas = []
     frontier = set(targets)
@@ -179,24 +187,28 @@ def saturate(eqs, targets, rounds=2, maxdeg=6, max_lemmas=60000, ineqs=()):
         for t in frontier:
             if not t:
                 continue
+            mt = _mask(t)
+            nmt = ~mt
             cand = set()
             for v, e in t:
                 if v != I_VAR:
                     cand.update(by_var.get(v, ()))
             for hi in cand:
                 h = eqs[hi]
-                for m in h.t:
-                    if not m:
+                for m, mm_ in hmons[hi]:
+                    if mm_ & nmt:
                         continue
                     q = mono_divides(m, t)
                     if q is None or not q:
                         continue
-                    if mono_has_I(q):
+                    if q[0][0] == I_VAR:
                         continue
                     k = (hi, q)
                     if k in seen:
                         continue
                     seen.add(k)
+                    if mono_degree(q) + h.degree() > maxdeg + 2:
+                        continue
                     lem = h.mul_mono(q)
                     if lem.degree() > maxdeg:
                         continue
